@@ -353,6 +353,15 @@ impl<'a> Gen<'a> {
                 out.push((key, J::Str(rt.to_string())));
             } else {
                 let fd = progs::fields_of(self.schema, rt).into_iter().find(|f| f.name == name);
+                // random schemas may let an object re-declare an interface's field with another type (not a
+                // valid schema): nothing conforms there
+                if let Some(ifd) = progs::fields_of(self.schema, static_ty).into_iter().find(|f| f.name == name) {
+                    if let Some(fd) = &fd {
+                        if fd.ty != ifd.ty {
+                            self.failed = true;
+                        }
+                    }
+                }
                 match fd {
                     Some(fd) => {
                         let v = self.value(rng, &fd.ty, true, &sub, depth, path, true);
